@@ -725,3 +725,27 @@ Proof.
   intros Hok Hup Hser. exists (norm sorted t). split; [apply (reparse dec sorted multiple t text Hok Hser)|].
   split; [reflexivity|]. rewrite (ser_norm dec sorted t Hok Hup). exact Hser.
 Qed.
+
+(* ------------------------------------------------------------------ C06 for whole components *)
+Lemma from_parts_no_lf n ps sorted v l : from_parts n ps sorted v = Ok l -> Fold.no_lf l = true.
+Proof.
+  unfold from_parts, contentline_new, Fold.no_lf. destruct ps.
+  - destruct (mem_chr 10 (n ++ 58 :: v)) eqn:E; intros H; inversion H; subst. rewrite E. reflexivity.
+  - destruct (mem_chr 10 _) eqn:E; intros H; inversion H; subst. rewrite E. reflexivity.
+Qed.
+
+Lemma lines_of_no_lf sorted : forall items ls, lines_of sorted items = Ok ls -> forallb Fold.no_lf ls = true.
+Proof.
+  induction items as [|[[n ps] v] items IH]; intros ls H.
+  - cbn in H. inversion H. reflexivity.
+  - destruct (lines_of_cons _ _ _ _ _ _ H) as (l & lr & Hl & Hlr & ->). cbn [forallb].
+    rewrite (from_parts_no_lf _ _ _ _ _ Hl), (IH lr Hlr). reflexivity.
+Qed.
+
+(* every physical line of every component that serialises at all has at most 75 octets -- no guard *)
+Theorem ser_width sorted t text : ser sorted t = Ok text ->
+  Forall (fun ln => (Fold.bytes ln <= 75)%nat) (Fold.phys_lines text).
+Proof.
+  unfold ser. destruct (lines_of sorted (property_items sorted t)) as [ls| | |] eqn:E; try discriminate.
+  cbn [bind]. intros H. inversion H; subst. apply lines_width. apply (lines_of_no_lf sorted _ ls E).
+Qed.
